@@ -107,6 +107,24 @@ def lexJson (s : String) : Json :=
     | some n => .uint n
     | none => .other
 
+/-- well-formed JSON scalars the generator puts into arrays: literals, plain strings, `-?d+(.d+)?` -/
+def validScalar (cs : List Char) : Bool :=
+  if cs.isEmpty then false
+  else if cs == "null".toList || cs == "true".toList || cs == "false".toList then true
+  else match lexJson (String.ofList cs) with
+    | .str _ _ => true
+    | .uint _ => true
+    | .other =>
+      let body := match cs with
+        | '-' :: r => r
+        | _ => cs
+      let (ip, r) := body.span isDigit
+      (canonUint ip).isSome &&
+        (match r with
+         | [] => true
+         | '.' :: fp => !fp.isEmpty && fp.all isDigit
+         | _ => false)
+
 def splitOnComma (cs : List Char) : List (List Char) :=
   (String.ofList cs).splitOn "," |>.map String.toList
 
@@ -120,7 +138,7 @@ def parseArr (s : String) : Option (List Json) :=
       if (trimWs inner).isEmpty then some []
       else
         let pieces := splitOnComma inner
-        if pieces.any (fun p => (trimWs p).isEmpty) then none
+        if pieces.any (fun p => !validScalar (trimWs p)) then none
         else some (pieces.map fun p => lexJson (String.ofList p))
     | _ => none
   | _ => none
